@@ -49,6 +49,9 @@ CONSTANTS Msgs,         \* message ids (positive integers)
           Prefetch,     \* 0: consume() takes from the broker itself (in-memory); n > 0: a background fetch keeps up to n messages in a local queue
           FinishMode    \* "taken" | "local", see above
 
+WaitCancelled == FALSE     \* (TRUE, see MC_Runner_repaired_wait.cfg: repair 4f7ea67 -- the cancelled executions give back before the consumers are finished;
+                           \*  trace validation keeps the weaker FALSE: a give-back issued by a cancelled slot wait is still under way then)
+TrueC == TRUE
 VARIABLES wc,                                \* configuration [tl, ml, maxr : Msgs -> Nat, qof : Msgs -> queue, nq, pf (prefetch), fm (finish mode)] (never changes)
           pool,                              \* messages not yet enqueued
           q, proc, dead, acked, tried,      \* broker: waiting sequence per queue, in flight, dead, acknowledged, attempt counters
@@ -197,8 +200,11 @@ FG == /\ phase = "run" /\ \A k \in Qs : cl[k] = "ended"
 (* a consumer's finish(): what it took and nobody settled goes back.  Worker.run() does not wait for the tasks it has   *)
 (* just cancelled: finish() may run while they are still rejecting their messages (a message that finish() has already  *)
 (* returned is then no longer held: that reject finds nothing to do)                                                     *)
+(* (repair 4f7ea67: finish_gracefully() now lets the executions it has cancelled give their messages back first: with         *)
+(*  WaitCancelled a consumer is finished only when no cancelled execution still has its give-back ahead of it)                *)
 ConsFinish(k) ==
     /\ phase = "fin" /\ ~fin[k] /\ fin' = [fin EXCEPT ![k] = TRUE]
+    /\ WaitCancelled => \A m \in Msgs : tpc[m] \notin {"spawned", "running", "report"}
     /\ IF wc.fm = "taken"
        THEN \* (a delivery the consumer is still looking at is not in its hands yet: it gives that one back itself, C_Return)
             /\ \E s \in Perms(OfQueue(proc, k) \ fetch[k]) : q' = [q EXCEPT ![k] = @ \o s]
